@@ -173,6 +173,13 @@ const IDENT_NAMES: [&str; 30] = [
     "a_b", "AB", "Ab", "A_B", "ab", "type", "fn", "struct", "Self", "self_", "Box", "Vec", "Option", "Token",
     "T1", "t1", "_x", "S0", "match", "loop", "crate", "super", "Result", "String", "Range", "dyn", "impl", "Ok", "Err", "trait",
 ];
+/// every strict, reserved and weak Rust keyword (2024 edition); used as non-terminal names (as
+/// written and capitalised) and as terminal texts
+pub const RUST_KEYWORDS: [&str; 55] = [
+    "as", "break", "const", "continue", "crate", "else", "enum", "extern", "false", "fn", "for", "if", "impl", "in", "let", "loop", "match", "mod", "move", "mut",
+    "pub", "ref", "return", "self", "Self", "static", "struct", "super", "trait", "true", "type", "unsafe", "use", "where", "while", "async", "await", "dyn",
+    "abstract", "become", "box", "do", "final", "macro", "override", "priv", "typeof", "unsized", "virtual", "yield", "try", "gen", "union", "raw", "safe",
+];
 const PLAIN_NAMES: [&str; 8] = ["S", "A", "B", "C", "D", "E", "F", "G"];
 const CLASH_NAMES: [&str; 24] = [
     "S", "SOpt", "SList", "SGroup", "SOpt0", "SList0", "SGroup0", "S0", "A", "AOpt", "AList",
@@ -246,6 +253,9 @@ pub fn gen_terms(rng: &mut Rng, kind: Terms, n: usize) -> Vec<TermDef> {
                     &["if", "If", "IF", "If0", "if0", "If1", "r#if"][..],
                 ]);
                 pool = fam.iter().map(|t| mk(t, Quote::Raw)).collect();
+            } else if rng.chance(1, 3) {
+                // terminals whose text is a Rust keyword
+                pool = RUST_KEYWORDS.iter().map(|t| mk(t, Quote::Raw)).collect();
             }
             rng.shuffle(&mut pool);
             let mut out: Vec<TermDef> = vec![];
@@ -347,6 +357,12 @@ pub fn gen_terms(rng: &mut Rng, kind: Terms, n: usize) -> Vec<TermDef> {
                     },
                 ],
             ];
+            let mut groups = groups;
+            // twins that differ only in their lookahead (polarity, pattern, none)
+            let la = |positive: bool, text: &str| Some(Lookahead { positive, text: text.into(), quote: Quote::Legacy });
+            let mkla = |text: &str, l: Option<Lookahead>| TermDef { text: text.into(), quote: Quote::Legacy, la: l, samples: vec![text.into()], states: vec![] };
+            groups.push(vec![mkla("x", la(true, "y")), mkla("x", la(false, "y")), mkla("x", None)]);
+            groups.push(vec![mkla("z", la(true, "q")), mkla("z", la(true, "r")), mkla("z", la(false, "q"))]);
             let mut gi: Vec<usize> = (0..groups.len()).collect();
             rng.shuffle(&mut gi);
             let mut out: Vec<TermDef> = vec![];
@@ -451,10 +467,31 @@ pub fn gen_grammar(rng: &mut Rng, p: &Profile) -> Grammar {
     let names: Vec<String> = match p.names {
         Names::Plain => PLAIN_NAMES.iter().take(n).map(|s| s.to_string()).collect(),
         Names::Idents => {
-            let mut pool: Vec<&str> = IDENT_NAMES.to_vec();
+            let mut pool: Vec<String> = IDENT_NAMES.iter().map(|s| s.to_string()).collect();
+            if rng.chance(1, 2) {
+                // keywords as written and capitalised (Return, Ref, ...)
+                pool = RUST_KEYWORDS
+                    .iter()
+                    .filter(|k| **k != "Self" && **k != "self" && **k != "crate" && **k != "super")
+                    .flat_map(|k| {
+                        let mut c = k.chars();
+                        let cap = c.next().map(|f| f.to_uppercase().collect::<String>() + c.as_str()).unwrap_or_default();
+                        [k.to_string(), cap]
+                    })
+                    .collect();
+                pool.sort();
+                pool.dedup();
+            }
             rng.shuffle(&mut pool);
             let mut v = vec!["S".to_string()];
-            v.extend(pool.into_iter().take(n - 1).map(|s| s.to_string()));
+            for name in pool {
+                if v.len() >= n {
+                    break;
+                }
+                if !v.contains(&name) {
+                    v.push(name);
+                }
+            }
             v
         }
         Names::Clash => {
@@ -1142,6 +1179,54 @@ pub fn gen_nested_rep_template(rng: &mut Rng, gtype: GType) -> Grammar {
         g.rules.push(Rule { name: "Id".into(), alts: vec![vec![t(1)]] });
     }
     g
+}
+
+/// LL(k) grammar built from an explicit partition of terminal strings of length k: `S: C1 | C2 | ..;`
+/// where each `Ci` lists its strings as alternatives. The lookahead tries of S have inner states
+/// with equal terminal sets, equal followers and crossed pairings - the shapes that automaton
+/// minimisation has to tell apart. Returns the grammar and the k it needs (at most).
+pub fn gen_partition_template(rng: &mut Rng) -> (Grammar, usize) {
+    let k = rng.range(2, 3);
+    let nsym = if k == 3 { 2 } else { rng.range(2, 3) };
+    let nclasses = rng.range(2, 3);
+    let mut g = Grammar::new("S", GType::LL);
+    let mut letters = vec!["a", "b", "c", "d", "e", "f"];
+    rng.shuffle(&mut letters);
+    g.terms = letters.iter().take(nsym).map(|t| TermDef::raw(t)).collect();
+    let mut strings: Vec<Vec<usize>> = vec![vec![]];
+    for _ in 0..k {
+        let mut next = vec![];
+        for w in &strings {
+            for a in 0..nsym {
+                let mut w2 = w.clone();
+                w2.push(a);
+                next.push(w2);
+            }
+        }
+        strings = next;
+    }
+    let mut classes: Vec<Alts> = vec![vec![]; nclasses];
+    for w in strings {
+        if rng.chance(1, 5) {
+            continue;
+        }
+        let c = rng.below(nclasses);
+        classes[c].push(w.iter().map(|t| Factor::T(*t, AstCtl::default())).collect());
+    }
+    let mut s_alts: Alts = vec![];
+    for (ci, alts) in classes.into_iter().enumerate() {
+        if alts.is_empty() {
+            continue;
+        }
+        let name = format!("C{}", ci + 1);
+        s_alts.push(vec![Factor::N(name.clone(), AstCtl::default())]);
+        g.rules.push(Rule { name, alts });
+    }
+    if s_alts.is_empty() {
+        s_alts.push(vec![Factor::T(0, AstCtl::default())]);
+    }
+    g.rules.insert(0, Rule { name: "S".into(), alts: s_alts });
+    (g, k)
 }
 
 /// AST-control attributes on non-terminal occurrences (clip, member name, user type). They have
